@@ -858,6 +858,33 @@ def run_poly3(ctx, case):
         if any(abs(a - float(b)) > 1e-9 * max(1.0, abs(float(b))) for a, b in zip(cen, c[i])):
             ctx.fail("C20/interpolate_position/centre-not-at-arc-length/3d", f"s={float(s)} is vertex {i} = {[float(v) for v in c[i]]}, got {cen}", case)
             return
+    # the same lanelet flattened to 2-D (after the 3-D queries above): arc length is now measured in the plane
+    import math
+    r2 = call(lan.convert_to_2d)
+    if r2[0] == "err":
+        ctx.fail(f"C20/convert_to_2d/raises-{r2[1]}", r2[2], case)
+        return
+    ctx.tag("poly3d/flattened")
+    pts2 = [(float(p[0]), float(p[1])) for p in c]
+    if any(a == b for a, b in zip(pts2, pts2[1:])):
+        return          # a purely vertical segment collapses: no longer a polyline with distinct consecutive vertices
+    cum2 = [0.0]
+    for (x0, y0), (x1, y1) in zip(pts2, pts2[1:]):
+        cum2.append(cum2[-1] + math.hypot(x1 - x0, y1 - y0))
+    d2 = [float(v) for v in lan.distance]
+    if len(d2) != len(cum2) or any(abs(a - b) > 1e-9 * max(1.0, b) for a, b in zip(d2, cum2)):
+        ctx.fail("C20/distance/not-arc-length/after-convert_to_2d", f"flattened centre line {pts2}: distance = {d2}, planar arc lengths = {cum2}", case)
+        return
+    for i, s in enumerate(cum2):
+        r = call(lan.interpolate_position, min(s, d2[-1]))
+        if r[0] == "err":
+            ctx.fail(f"C20/interpolate_position/raises-{r[1]}/after-convert_to_2d", f"s={s} (vertex {i}): {r[2]}", case)
+            return
+        cen = [float(v) for v in r[1][0]][:2]
+        if any(abs(a - b) > 1e-7 * max(1.0, abs(b)) for a, b in zip(cen, pts2[i])):
+            ctx.fail("C20/interpolate_position/centre-not-at-arc-length/after-convert_to_2d",
+                     f"after convert_to_2d s={s} is vertex {i} = {pts2[i]}, got {cen}", case)
+            return
 
 
 def run_case(ctx, case):
